@@ -119,10 +119,11 @@ type plan struct {
 	Real          []string `json:"real"`
 	Stub          []string `json:"stub"`
 	JobTimeoutSec int      `json:"job_timeout_sec"`
-	CaseStallSec  int      `json:"case_stall_sec"` // per-case wall-clock watchdog (0: none)
-	DetFresh      bool     `json:"det_fresh"`      // determinism self-test compares single-case fresh processes (stateful harness)
-	StallIsHang   bool     `json:"stall_is_hang"`  // a reproducible stall is a hang of the program under test
-	Exhaustive    bool     `json:"exhaustive"`     // the harness enumerates a finite space completely
+	CaseStallSec  int      `json:"case_stall_sec"`   // per-case wall-clock watchdog (0: none)
+	DetVerdict    bool     `json:"det_verdict_only"` // a real peer process takes part: compare verdicts, not decision traces
+	DetFresh      bool     `json:"det_fresh"`        // determinism self-test compares single-case fresh processes (stateful harness)
+	StallIsHang   bool     `json:"stall_is_hang"`    // a reproducible stall is a hang of the program under test
+	Exhaustive    bool     `json:"exhaustive"`       // the harness enumerates a finite space completely
 }
 
 var commonReal = []string{"all murex code on the simulated path (instrumented only by mxinstr rules R1-R6)", "Go runtime 1.26.8", "testing/synctest fake clock and quiescence"}
@@ -279,12 +280,22 @@ func prepare(race, helper bool) (worker string, instrStats string) {
 		infra("building the worker against the instrumented copy of /repo failed: %v\n%s", err, out)
 	}
 	if helper {
-		hp := filepath.Join(scratch, "helper")
-		os.MkdirAll(hp, 0755)
-		run("", nil, "sh", "-c", "cp "+verifDir+"/helper/*.go "+hp+"/")
-		os.WriteFile(filepath.Join(hp, "go.mod"), []byte("module helper\n\ngo 1.26\n"), 0644)
-		if out, err := run(hp, goEnv(), "go1.26.8", "build", "-o", filepath.Join(scratch, "mxhelper"), "."); err != nil {
-			infra("building helper: %v\n%s", err, out)
+		// the C21 peer process: a small C program, so that a signal really ends it with the default action
+		src := filepath.Join(verifDir, "helper", "main.c")
+		built := false
+		for _, cc := range []string{"cc", "gcc", "clang"} {
+			if _, err := exec.LookPath(cc); err != nil {
+				continue
+			}
+			if out, err := run("", nil, cc, "-O1", "-o", filepath.Join(scratch, "mxhelper"), src); err == nil {
+				built = true
+				break
+			} else {
+				instrStats += " (" + cc + " failed: " + strings.TrimSpace(out) + ")"
+			}
+		}
+		if !built {
+			infra("building the C21 helper: no working C compiler (cc, gcc, clang)")
 		}
 	}
 	return
@@ -867,7 +878,7 @@ func check(prop, tier string) int {
 						dmu.Lock()
 						if ok {
 							detChecked++
-							if w.Hash != l.Record.Hash || w.Verdict != l.Record.Verdict || w.Steps != l.Record.Steps {
+							if w.Verdict != l.Record.Verdict || w.Clause != l.Record.Clause || (!pl.DetVerdict && (w.Hash != l.Record.Hash || w.Steps != l.Record.Steps)) {
 								detMismatch++
 								detMsg = fmt.Sprintf("case %d: batch run hash=%s steps=%d verdict=%s; re-run (GOMAXPROCS=%d) hash=%s steps=%d verdict=%s", l.Record.I, w.Hash, w.Steps, w.Verdict, gmp, l.Record.Hash, l.Record.Steps, l.Record.Verdict)
 							}
